@@ -228,7 +228,7 @@ def cstmt(s):
         return pre + [("if", c, cstmts(s[2]), cstmts(s[3]))] + post
     if h == "for":
         c = cexpr(s[1])
-        return [("while", c, cstmts(s[2]) + cstmts(s[3]))]
+        return [("while", c, cstmts(s[2]) + _saturating_step(c, cstmts(s[3])))]
     if h == "while":
         c = s[1]
         if c[0] == "declcond":
@@ -263,6 +263,25 @@ def cstmt(s):
     if h == "unk":
         return [s[:2]]
     return [s[:-1]]
+
+
+def _saturating_step(c, step):
+    """the overflow-safe loop increment   v = (bound - v > s ? v + s : bound)   under the loop condition
+    v < bound (mirrored: bound - v < s under v > bound) is  v += s  over the unbounded integers of the
+    definitions: whenever the guard is false v + s has reached bound and the loop ends either way, and
+    the loop variable is dead after a for statement"""
+    if len(step) != 1 or step[0][0] != "assign" or not (c and c[0] == "bin" and c[1] == "<"):
+        return step
+    v, r = step[0][1], step[0][2]
+    if r[0] != "cond" or r[2][0] != "bin" or r[2][1] != "+" or v not in (r[2][2], r[2][3]):
+        return step
+    s = r[2][3] if r[2][2] == v else r[2][2]
+    bound, q = r[3], r[1]
+    if c[2] == v and c[3] == bound and q == ("bin", "<", s, ("bin", "-", bound, v)):
+        return (("aug", "+", v, s),)
+    if c[3] == v and c[2] == bound and q == ("bin", "<", ("bin", "-", bound, v), s):
+        return (("aug", "+", v, s),)
+    return step
 
 
 def _mk_assign(l, r):
